@@ -22,7 +22,15 @@ RULE = ("files: random (depth, nchans 16..64, N 60..300, planted bad channels, m
 DEPTHS = (1, 2, 4, 8, 32)
 
 
+SUITE_CONTRACTS = True   # thorough tier also runs the repository's own tests under vlib/suite_plugin.py
+_SUITE_REQUIRED = ['suite:apply_mask_checks', 'suite:apply_method_checks', 'suite:apply_funcn_checks']
+
+
 def REQUIRED(tier):
+    return _required(tier) + (_SUITE_REQUIRED if tier == "thorough" else [])
+
+
+def _required(tier):
     return ["files_cleaned", "hook:apply_mask", "hook:apply_method", "hook:apply_funcn", "mask_union_checks", "vectors:mad", "vectors:iqrm", "vector:all_equal", "vector:planted_outlier",
             "file_samples_compared", "regime:multi_block", "roundtrip_checks", "freq:empty_list", "freq:outside_band", "freq:overlapping", "freq:limit_on_centre", "algebra_histories", "regime:subrange_cleaned", "regime:negative_float_samples", "regime:float_mask_value_outside_0_255", "custom_function_input_checks"]
 
